@@ -65,6 +65,10 @@ def gen(rng, tier, k=None):
         P, D, M = 1, rng.choice([1, 2]), 2
         cfg.update(P=P, D=D, M=M, correlated=True, damping=rng.choice([0.001, 0.01]), kl_clip=0.001, factor_decay=0.0625, batch=4)
         cfg['layers'] = [('row', 2 * rng.randint(1, 2), rng.randint(1, 2), 0) for _ in range(rng.randint(1, 2))]
+    if k is not None and k % 3 == 1:
+        # stratum: activations in the GPT-NeoX layout [seq, batch, hidden] with seq > 1 and batch > 1 (the factors are those of the
+        # same rows presented as a matrix)
+        cfg['batch'] = 4; cfg['seq'] = 2       # (row counts stay powers of two: the factor comparison with the unsharded layer is exact)
     hist = [['train', 1] for _ in range(rng.randint(1, 3))]
     if rng.random() < 0.3 and not cfg.get('correlated'):          # a damping schedule with inverses reused across steps: the CURRENT damping must be used (plain eigen path)
         cfg['damping'] = ['table', [rng.choice([0.5, 0.25, 1.0, 2.0]) for _ in range(6)]]
@@ -79,7 +83,7 @@ def run(tier, seed, rng):
     import torch
     from harness import neoxrun
     cov = Coverage('data x model decompositions in {1,2,4} x {1,2,4} (pipe 2 in the thorough tier), column- and row-parallel layers, bias '
-                   'on/off, bucketed or not, clipping off / active, 1-3 steps, exact integer data in float64; non-trivial = M > 1 and D > 1; distinct by hash')
+                   'on/off, bucketed or not, clipping off / active, 1-3 steps, activations as [rows, hidden] or [seq, batch, hidden], exact integer data in float64; non-trivial = M > 1 and D > 1; distinct by hash')
     failures: list[Failure] = []
     from harness.props import C03
     from harness import neoxcomm
@@ -94,7 +98,7 @@ def run(tier, seed, rng):
         w = neoxrun.run(cfg, hist, seed=seed + k, policy=rng.choice(['random', 'rr', 'ahead']))
         case = {'cfg': cfg, 'history': hist, 'seed': seed + k}
         cov.add(case, M > 1 and D > 1, sample_cap=2)
-        cov.count('DxM', f'{D}x{M}'); cov.count('P', P); cov.count('clip', cfg['kl_clip'] is not None)
+        cov.count('DxM', f'{D}x{M}'); cov.count('P', P); cov.count('clip', cfg['kl_clip'] is not None); cov.count('activations', '3-D' if cfg.get('seq') else '2-D')
         for l in cfg['layers']:
             cov.count('layer', f'{l[0]}{"+b" if l[3] else ""}')
         if not w.ok:
